@@ -46,6 +46,8 @@ def sym_body(cfg, want_vjp=True, want_jvp=False, complex_g=None):
             raise
         except Exception as e:
             return {"tag": "numpy_rejects", "exc": e}
+        if not _numeric(y):
+            return {"tag": "nonnumeric", "y": y}
         res = {"tag": "ok", "x": dual[k], "y": y, "args": dual}
         plain = cfg.make_args()
         f = lambda x: cfg.call(anp, *subst(plain, k, x))
@@ -479,6 +481,36 @@ def replay_vjp(cfg, env, tol=1e-5):
     return bad, "<vjp(g),d>=%.9g  <g,J d>(finite difference of NumPy's function)=%.9g" % (lhs, rhs)
 
 
+def float_probe(cfg, out, mode):
+    """The symbolic engine could not encode this configuration.  Fall back to a concrete float64 probe at 3 random
+    regular points: a derivative that is non-finite or off by more than 1% at ALL of them is reported (with the
+    concrete failing input) - this is replay evidence, not a solver verdict, and is labelled as such."""
+    rng = _rng(cfg)
+    bad_all = True
+    info = ""
+    env = None
+    n = 0
+    for _ in range(6):
+        env = _Default({}, rng)
+        try:
+            rep, info = (replay_vjp if mode == "vjp" else replay_jvp)(cfg, env, tol=1e-3)
+        except Exception as e:
+            return
+        if "regular point" in info or "raised" in info:
+            continue
+        n += 1
+        if not rep:
+            bad_all = False
+            break
+        if n >= 3:
+            break
+    if n >= 3 and bad_all:
+        out.status = "violation"
+        out.detail = "[float64 probe; engine: %s] wrong at 3/3 random regular points, e.g. %s" % (out.detail, info)
+        out.cex = {"env": {k_: float(v) for k_, v in env.items()}, "mode": mode, "info": info}
+        out.extra["decided_by"] = "float64 probe"
+
+
 def check_vjp(cfg, tier="quick"):
     """C01 instance: <vjp(g), d> == <g, f'(x; d)> for all x, g, d on every smooth path; same structure"""
     opts = tier_opts(tier)
@@ -486,6 +518,8 @@ def check_vjp(cfg, tier="quick"):
     t0 = time.time()
     paths = explore_cfg(cfg, out, sym_body(cfg, True, False), opts)
     if paths is None:
+        if out.detail.startswith("unsupported by the symbolic engine"):
+            float_probe(cfg, out, "vjp")
         out.time = time.time() - t0
         return out
     _decide(cfg, out, paths, opts, mode="vjp")
@@ -499,6 +533,8 @@ def check_jvp(cfg, tier="quick"):
     t0 = time.time()
     paths = explore_cfg(cfg, out, sym_body(cfg, False, True), opts)
     if paths is None:
+        if out.detail.startswith("unsupported by the symbolic engine"):
+            float_probe(cfg, out, "jvp")
         out.time = time.time() - t0
         return out
     _decide(cfg, out, paths, opts, mode="jvp")
@@ -571,6 +607,9 @@ def _decide(cfg, out, paths, opts, mode):
             nrej += 1
             out.detail = exc_sig(res["exc"])
             continue
+        if res["tag"] == "nonnumeric":
+            out.status, out.detail = "holds", "NumPy's result is not numeric (%s): nothing to differentiate" % type(res["y"]).__name__
+            return
         # reachability witness (first path only needs the solver if no claim query follows)
         r, m = witness(p, out, opts)
         if r == "unsat":
@@ -2534,3 +2573,185 @@ def check_zero(case, tier="quick"):
             out.validated += 1
     out.time = time.time() - t0
     return out
+
+
+# ----------------------------------------------------------------------------------------------
+# C06: value transparency
+
+
+def check_transparent(cfg, tier="quick"):
+    from autograd import core
+    import autograd
+    import autograd.builtins as ab
+
+    opts = tier_opts(tier)
+    out = Outcome(cfg)
+    t0 = time.time()
+    k = cfg.argnum
+    anp = enga.anp
+
+    def body():
+        plain = cfg.make_args()
+        try:
+            y_np = getattr(cfg, "oracle", cfg.call)(onp, *plain)
+        except (Unsupported, Infeasible, PathLimit):
+            raise
+        except Exception as e:
+            return {"tag": "numpy_rejects", "exc": e}
+        in_ids = [_ids(a) for a in plain if isinstance(a, onp.ndarray)]
+        f = lambda x: cfg.call(anp, *subst(plain, k, x))
+        res = {"tag": "ok", "args": plain, "y_np": y_np, "vals": {}, "tq": []}
+
+        def guard(name, fn):
+            try:
+                with warnings.catch_warnings():
+                    warnings.simplefilter("ignore")
+                    res["vals"][name] = fn()
+            except (Unsupported, Infeasible, PathLimit):
+                raise
+            except Exception as e:
+                res["vals"][name] = e
+
+        guard("plain call through autograd.numpy", lambda: f(plain[k]))
+        guard("make_vjp", lambda: core.make_vjp(f, plain[k])[1])
+        v = sym_like(plain[k], "v")
+        guard("make_jvp", lambda: core.make_jvp(f, plain[k])(v)[0])
+        guard("jvp inside vjp (depth 2)", lambda: core.make_vjp(lambda x: core.make_jvp(f, x)(v)[0], plain[k])[1])
+        guard("vjp inside jvp (depth 2)", lambda: core.make_jvp(lambda x: core.make_vjp(f, x)[1], plain[k])(v)[0])
+        if not isinstance(y_np, (tuple, list, dict)) and onp.shape(y_np) == ():
+            guard("value_and_grad", lambda: autograd.value_and_grad(f)(plain[k])[0])
+            guard("grad_and_aux aux", lambda: autograd.grad_and_aux(lambda x: (f(x), f(x)))(plain[k])[1])
+
+        # type queries through autograd's replacements answer as for the plain value
+        def probe(x):
+            res["tq"].append((ab.isinstance(x, onp.ndarray), isinstance(plain[k], onp.ndarray), ab.isinstance(x, (float, S)), isinstance(plain[k], (float, S)),
+                              ab.type(x) is type(plain[k]), ab.isinstance(x, (tuple, list, dict)), isinstance(plain[k], (tuple, list, dict))))
+            return f(x)
+
+        try:
+            with warnings.catch_warnings():
+                warnings.simplefilter("ignore")
+                core.make_vjp(probe, plain[k])
+        except (Unsupported, Infeasible, PathLimit):
+            raise
+        except Exception:
+            pass
+        res["in_same"] = [_ids(a) for a in plain if isinstance(a, onp.ndarray)] == in_ids
+        return res
+
+    paths = explore_cfg(cfg, out, body, opts)
+    if paths is None:
+        out.time = time.time() - t0
+        return out
+    fails = []
+    nok = 0
+    nraise = 0
+    for p in paths:
+        if p.err is not None:
+            out.status, out.detail = "error", "harness: body raised %s" % exc_sig(p.err)
+            break
+        res = p.res
+        if res["tag"] == "numpy_rejects":
+            out.status, out.detail = ("numpy_rejects" if _numpy_float_raises(cfg) else "inconclusive"), exc_sig(res["exc"])
+            break
+        r, m = witness(p, out, opts)
+        if r == "unsat":
+            continue
+        y = res["y_np"]
+        if not res["in_same"]:
+            fails.append("an input array had entries replaced")
+        for tq in res["tq"]:
+            if tq[0] != tq[1] or tq[2] != tq[3] or not tq[4] or tq[5] != tq[6]:
+                fails.append("autograd.builtins.isinstance/type disagree with the builtins on the plain value: %s" % (tq,))
+        for name, val in res["vals"].items():
+            if isinstance(val, Exception):
+                nraise += 1
+                out.extra.setdefault("raised", {})[name] = exc_sig(val)
+                continue
+            nok += 1
+            if contains_box(val):
+                fails.append("%s: returned value contains a tracer (Box)" % name)
+                continue
+            if not _numeric(y):
+                continue
+            if _container_types(val) != _container_types(y):
+                fails.append("%s: result container structure %s, NumPy gives %s" % (name, _container_types(val), _container_types(y)))
+                continue
+            if _shape_struct(val) != _shape_struct(y):
+                fails.append("%s: result shape structure %s, NumPy gives %s" % (name, _shape_struct(val), _shape_struct(y)))
+                continue
+            try:
+                v_, model = prove_eqs(p, leaf_eqs(val, 0, y, 0), [], out, opts)
+            except ValueError as e:
+                fails.append("%s: %s" % (name, e))
+                continue
+            if v_ == "sat":
+                fails.append("%s: value differs from NumPy's" % name)
+            elif v_ == "unknown":
+                out.status, out.detail = "inconclusive", "solver unknown on value equality (%s)" % name
+                break
+        if out.status or fails:
+            break
+    if out.status is None:
+        if fails:
+            rep = _float_transparent(cfg)
+            if rep:
+                out.status, out.detail = "violation", "; ".join(fails[:4]) + " | float64: " + rep
+                out.cex = {"env": {}, "mode": "transparent"}
+            else:
+                out.status, out.detail = "inconclusive", "differs on symbolic arrays only (object-dtype artefact): " + "; ".join(fails[:3])
+        elif nok == 0:
+            out.status = "raises"
+        else:
+            out.status = "holds"
+            out.validated += 1
+    out.time = time.time() - t0
+    return out
+
+
+def _container_types(v):
+    if isinstance(v, dict):
+        return ("dict", tuple((k_, _container_types(v[k_])) for k_ in sorted(v, key=repr)))
+    if isinstance(v, tuple) and hasattr(v, "_fields"):
+        return (type(v).__name__, tuple(_container_types(e) for e in v))
+    if isinstance(v, (tuple, list)):
+        return (type(v).__name__, tuple(_container_types(e) for e in v))
+    return "leaf"
+
+
+def _float_transparent(cfg):
+    """float64: value under both modes vs plain NumPy (values, shape, dtype, structure, no Box)"""
+    from autograd import core
+
+    rng = _rng(cfg)
+    env = _Default({}, rng)
+    anp = enga.anp
+    k = cfg.argnum
+    try:
+        fa = cfg.float_args(env)
+        with warnings.catch_warnings():
+            warnings.simplefilter("ignore")
+            y = getattr(cfg, "oracle", cfg.call)(onp, *fa)
+            f = lambda x: cfg.call(anp, *subst(fa, k, x))
+            vals = {"make_vjp": core.make_vjp(f, fa[k])[1]}
+            try:
+                vals["make_jvp"] = core.make_jvp(f, fa[k])(enga.add_scaled(fa[k], fa[k], 0.0))[0]
+            except Exception:
+                pass
+            vals["plain"] = f(fa[k])
+        for name, v in vals.items():
+            if contains_box(v):
+                return "%s returns a Box" % name
+            if _container_types(v) != _container_types(y):
+                return "%s: container structure %s vs NumPy %s" % (name, _container_types(v), _container_types(y))
+            for a, b in zip(leaves_raw(v), leaves_raw(y)):
+                a_, b_ = onp.asarray(a), onp.asarray(b)
+                if a_.shape != b_.shape:
+                    return "%s: shape %s vs NumPy %s" % (name, a_.shape, b_.shape)
+                if a_.dtype != b_.dtype and a_.dtype != object and b_.dtype != object:
+                    return "%s: dtype %s vs NumPy %s" % (name, a_.dtype, b_.dtype)
+                if not onp.allclose(a_, b_, rtol=1e-12, atol=1e-12, equal_nan=True):
+                    return "%s: values differ" % name
+    except Exception as e:
+        return ""
+    return ""
